@@ -37,6 +37,7 @@ type Monitor interface {
 }
 
 type Env struct {
+	guidanceLost bool
 	W     *world.World
 	Ch    *core.Chooser
 	Log   *core.Log
@@ -184,6 +185,7 @@ func RunOne(o core.RunOpts) (res *core.RunResult) {
 		if e.Viol != nil {
 			break
 		}
+		pumpGuidance(e, blk)
 	}
 	if e.Viol == nil {
 		for _, m := range e.Monitors {
@@ -207,6 +209,32 @@ func firstLine(s string) string {
 		return s[:i]
 	}
 	return s
+}
+
+// pumpGuidance advances every shared reference model that no monitor of this profile advanced for this block (Advance is
+// idempotent per height). Actors read these models to aim their inputs; a model nobody advances leaves them blind.
+func pumpGuidance(e *Env, blk *world.BlockRecord) {
+	if e.guidanceLost {
+		return
+	}
+	defer func() {
+		if r := recover(); r != nil {
+			e.guidanceLost = true
+			e.St.Probe("actor_guidance_models_dropped")
+		}
+	}()
+	if x, ok := e.Shared["stake.shadow"].(*StakeShadow); ok {
+		x.Advance(e, blk)
+	}
+	if x, ok := e.Shared["feeds.shadow"].(*FeedsShadow); ok {
+		x.Advance(e, blk)
+	}
+	if x, ok := e.Shared["tss.shadow"].(*TSSShadow); ok {
+		x.Advance(e, blk)
+	}
+	if x, ok := e.Shared["tunnel.shadow"].(*TunnelShadow); ok {
+		x.Advance(e, blk)
+	}
 }
 
 // anchoredIn returns the first anchor file of prop that appears in the panic stack ("" if none).
